@@ -399,7 +399,7 @@ func (e *Engine) intrinsic(name string, fn *ssa.Function, args []Value) (Value, 
 		}
 		for i := range ts {
 			for j := i + 1; j < len(ts); j++ {
-				e.addPC(tb.Not(tb.Eq(ts[i], ts[j])))
+				e.addPC(tb.Not(tb.EqRaw(ts[i], ts[j])))
 			}
 		}
 		if len(ts) > 0 {
@@ -468,6 +468,8 @@ func (e *Engine) intrinsic(name string, fn *ssa.Function, args []Value) (Value, 
 			ch.closed = true
 			e.tracef("break-signal %s", ch)
 		}
+		// the real Close() goes through a sync.Once: mark it done so that a later Break() does not close again
+		e.onceDone[find(cl, "once").v.(PtrV).L] = true
 		return nil, true
 	case "vFairTicks":
 		e.fairTicks = true
@@ -487,6 +489,18 @@ func (e *Engine) intrinsic(name string, fn *ssa.Function, args []Value) (Value, 
 	case "vSinkWhenFull":
 		e.sinkAll = true
 		return nil, true
+	case "vLassoBound":
+		e.lassoBound = e.concreteInt(args[0].(*Term), "vLassoBound")
+		return nil, true
+	case "vOnAnyBlock":
+		e.anyBlock = args[0].(FuncV)
+		return nil, true
+	case "vWaitCount": // outstanding WaitGroup count (sum over all wait groups of the run)
+		n := 0
+		for _, c := range e.wgCount {
+			n += c
+		}
+		return e.intConst(64, int64(n)), true
 	case "vDecline":
 		e.declined = true
 		return nil, true
